@@ -231,4 +231,12 @@ theorem T_penrose_bd (A : Matrix m n 𝕜) (X : Matrix n m 𝕜) (B : Matrix p q
   obtain ⟨a1, a2, a3, a4⟩ := hA
   obtain ⟨b1, b2, b3, b4⟩ := hB
   refine ⟨?_, ?_, ?_, ?_⟩ <;> simp [Matrix.fromBlocks_multiply, Matrix.fromBlocks_conjTranspose, *]
+theorem T_penrose_rep {o : Type*} [Fintype o] [DecidableEq o] (A : Matrix m n 𝕜) (X : Matrix n m 𝕜) (hA : Penrose A X) :
+    Penrose (Matrix.blockDiagonal (fun _ : o => A)) (Matrix.blockDiagonal (fun _ : o => X)) := by
+  obtain ⟨a1, a2, a3, a4⟩ := hA
+  refine ⟨?_, ?_, ?_, ?_⟩
+  · rw [← Matrix.blockDiagonal_mul, ← Matrix.blockDiagonal_mul]; congr 1; funext _; exact a1
+  · rw [← Matrix.blockDiagonal_mul, ← Matrix.blockDiagonal_mul]; congr 1; funext _; exact a2
+  · rw [← Matrix.blockDiagonal_mul, Matrix.blockDiagonal_conjTranspose]; congr 1; funext _; exact a3
+  · rw [← Matrix.blockDiagonal_mul, Matrix.blockDiagonal_conjTranspose]; congr 1; funext _; exact a4
 end PenroseStructure
